@@ -410,6 +410,10 @@ func C07(rep *ev.Reporter, tier string) {
 			}
 		}
 	}
+	// ---- IDENTICAL expressions in different roles (legitimate merging must stay unobservable) ----
+	fs := RunFamily(rep, func(emit func(Case)) { sharedRoles(8, emit) }, 2000, bud, judgeTransparent)
+	nRuns += fs.Runs
+	rep.Coverage["identical_expression_role_programs"] = fs.Programs
 	rep.Coverage["assignment_target_pairs"] = nTargets
 	rep.Coverage["evaluations"] = nRuns + nTargets
 	rep.Coverage["states"] = nPairs * int64(len(worlds))
@@ -422,5 +426,5 @@ func C07(rep *ev.Reporter, tier string) {
 		rep.Exhaustive = false
 		rep.Coverage["caps_hit"] = "time budget"
 	}
-	rep.Coverage["rule"] = "sibling pairs differing in exactly one place: constants (floats equal to 6 decimals, sign, exponent, int vs string/bool rendering, digits, hex vs decimal, strings differing in one char / case / containing quote, bracket, comma, arrow, strings imitating snapshot syntax), all 42 substitutions among the 7 arithmetic/bitwise and all 30 among the 6 comparison operators, && vs ||, 9 negation forms pairwise, operand order, grouping, selectors (index, key, computed), paths, argument order/splitting/count/nesting, method names; each pair built alone vs together in both textual orders, in one resource and in separate resources, and as a triple inside a larger shared expression; 5 fact states; plus sibling rules that differ only in the assignment TARGET (index, key, computed selector, field, nested field). Differential oracle (no expected values): FetchMatchingRules membership and the sink value computed by Execute of each rule alone == together. Non-trivial: the reference evaluator certifies that the two siblings differ on at least one of the states."
+	rep.Coverage["rule"] = "sibling pairs differing in exactly one place: constants (floats equal to 6 decimals, sign, exponent, int vs string/bool rendering, digits, hex vs decimal, strings differing in one char / case / containing quote, bracket, comma, arrow, strings imitating snapshot syntax), all 42 substitutions among the 7 arithmetic/bitwise and all 30 among the 6 comparison operators, && vs ||, 9 negation forms pairwise, operand order, grouping, selectors (index, key, computed), paths, argument order/splitting/count/nesting, method names; each pair built alone vs together in both textual orders, in one resource and in separate resources, and as a triple inside a larger shared expression; 5 fact states; plus sibling rules that differ only in the assignment TARGET (index, key, computed selector, field, nested field); plus two rules using the IDENTICAL expression (6 kinds: map entry, field, slice element, pointer field, sum, method call) in every pair of 7 roles (bare operand, bracketed, comparison in bracket, negated bracket, method argument, selector index) and 3 action roles while the first rule changes its value each cycle, 3 salience relations, every clone order of the instance and every rule order, judged in lockstep with the reference model. Differential oracle (no expected values): FetchMatchingRules membership and the sink value computed by Execute of each rule alone == together. Non-trivial: the reference evaluator certifies that the two siblings differ on at least one of the states."
 }
